@@ -624,6 +624,14 @@ def codec_parameters_are_used(model: Model, run: Run) -> None:
                     elif isinstance(c.func, ast.Attribute) and isinstance(c.func.value, ast.Name):
                         q = model.resolve_name(fi.module, norm(c.func))
                         g = model.functions.get(q) if q else None
+                    # a function handed over next to the header (`self._read_next(_read_asn1_integer, tag, header, hint)`) is what the callee
+                    # applies to it
+                    for a_ in list(c.args) + [k.value for k in c.keywords]:
+                        if isinstance(a_, ast.Name) and a_.id != h_:
+                            q2 = model.resolve_name(fi.module, a_.id)
+                            g2 = model.functions.get(q2) if q2 else None
+                            if g2 is not None and g2 is not an.validate and not isinstance(g2.node, ast.Lambda) and uses_header_tag(g2, depth + 1):
+                                ok = True
                     if g is not None and g is not an.validate and not isinstance(g.node, ast.Lambda) and uses_header_tag(g, depth + 1):
                         ok = True
         memo[fi.qualname] = ok
